@@ -11,10 +11,25 @@ from .. import gen, tracer
 from . import runlevel
 
 
-def _foreign(rng_seed, kind):
+def _foreign(rng_seed, kind, D=None):
     """Foreign activity in the same process (its results are discarded)."""
     import numpy as np
     r = random.Random(rng_seed)
+    if kind == "sibling":
+        # other BADS objects for a problem of the SAME dimension with different option values (after one of another dimension):
+        # whatever they compute from their options must not reach the instance under test
+        from pybads import BADS
+        D = D or 2
+        for d, o in ((D + 1, {}), (D, {"tol_fun": r.choice([1e-1, 1e-5, 1.0]), "tol_mesh": r.choice([1e-3, 1e-8]), "n_search": r.choice([32, 256]),
+                                       "noise_final_samples": r.choice([3, 20]), "max_fun_evals": r.choice([40, 90])})):
+            o = dict(o, display="off")
+            b = BADS(lambda x: float(np.sum(np.asarray(x) ** 2)), np.full(d, 0.3), np.full(d, -4.0), np.full(d, 6.0), np.full(d, -2.0), np.full(d, 3.0), options=o)
+        if r.random() < 0.4:
+            try:
+                b.optimize()
+            except Exception:
+                pass
+        return
     if kind == "draws":
         np.random.seed(r.randint(0, 10 ** 6))
         for _ in range(r.randint(1, 5)):
@@ -44,7 +59,7 @@ def _job(args):
     import numpy as np
     spec, pre, mid, hseed = args
     for i, k in enumerate(pre):
-        _foreign(hseed * 100 + i, k)
+        _foreign(hseed * 100 + i, k, spec["D"])
     from pybads import BADS
     fun, x0, lb, ub, plb, pub, cons, opts, aux = gen.build(spec)
     # seeding discipline: record the order of global-generator uses
@@ -65,7 +80,7 @@ def _job(args):
         np.random.seed, np.random.uniform, np.random.rand = o_seed, o_uniform, o_rand
         np.random.randn, np.random.normal, np.random.randint, np.random.permutation = o_randn, o_normal, o_randint, o_perm
         for i, k in enumerate(mid):
-            _foreign(hseed * 100 + 50 + i, k)
+            _foreign(hseed * 100 + 50 + i, k, spec["D"])
         np.random.seed, np.random.uniform, np.random.rand = w("seed", o_seed), w("uniform", o_uniform), w("rand", o_rand)
         np.random.randn, np.random.normal, np.random.randint, np.random.permutation = w("randn", o_randn), w("normal", o_normal), w("randint", o_randint), w("permutation", o_perm)
         try:
@@ -97,8 +112,10 @@ def run(ctx):
     for si, sp in enumerate(specs):
         jobs.append((sp, [], [], 0)); meta.append((si, "fresh", [], []))
         for v in range(2 if ctx.quick else 4):
-            pre = [rng.choice(["draws", "run", "construct"]) for _ in range(rng.randint(0, 3))]
-            mid = [rng.choice(["draws", "run", "construct"]) for _ in range(rng.randint(0, 2))]
+            pre = [rng.choice(["draws", "run", "construct", "sibling"]) for _ in range(rng.randint(0, 3))]
+            mid = [rng.choice(["draws", "run", "construct", "sibling"]) for _ in range(rng.randint(0, 2))]
+            if v == 0:
+                pre = ["sibling"] + pre[:1]
             if not pre and not mid:
                 pre = ["draws"]
             jobs.append((sp, pre, mid, si * 10 + v + 1)); meta.append((si, "history", pre, mid))
